@@ -33,7 +33,8 @@ RULE = ("batches of grammar programs (C01's space incl. tags drawn as in C07, "
         "names of pre-bound arguments, the generated NumPy-like Python source "
         "and its argument list, and for distributed programs the part "
         "structure (part ids, their inputs/outputs/sends/receives in order, "
-        "names) and the tag map of number_distributed_tags.  Oracle: every "
+        "names), the tag map of number_distributed_tags and the kernel of "
+        "every part, generated as generate_code_for_partition does.  Oracle: every "
         "artefact is byte-identical in all children, and identical when "
         "produced twice in one child (of an exception, its type and raise "
         "site are the artefact).  non-trivial = program with >= 3 "
@@ -132,6 +133,16 @@ def run_shard(shard: int, nshards: int, seed: int, tier: str) -> ShardResult:
             tags = data.draw(c07.assignments(spec))
             spec = c07.tagged(spec, tags)
             res.count("with_tags")
+        if data.draw(st.integers(0, 3)) == 0:
+            # input names that differ only in case, digits, underscores:
+            # orderings by a non-injective key would tie
+            pool = ["A", "a", "B", "b", "X", "x", "a_", "A_", "a1", "A1"]
+            k = 0
+            for n in spec["nodes"]:
+                if n["op"] == "placeholder" and k < len(pool):
+                    n["p"]["name"] = pool[k]
+                    k += 1
+            res.count("case_variant_names")
         cases.append({"spec": spec})
 
     hyp_run(st.tuples(progen.programs(cfg), st.data()), body, seed,
@@ -207,6 +218,40 @@ def dist_summary(case) -> dict[str, str]:
         out["next_tag"] = json.dumps(s["next_tag"])
     else:
         out["partition"] = json.dumps(s, sort_keys=True)
+        return out
+    # the code of every part, generated the way generate_code_for_partition
+    # does it: from a dictionary built in the iteration order of the part's
+    # (frozen)set of output names
+    import warnings
+    import pytato as pt
+    from pvf import distgen, distsim
+    from pvf.c17child import describe_kernel, norm_exc
+    from pvf.cexec import c_target
+    distsim.install()
+    with warnings.catch_warnings():
+        warnings.simplefilter("ignore")
+        builds = distgen.build_case(case["dist"])
+        po = distsim.partition_all(builds, do_verify=False, do_number=False)
+        if not po.all_done():
+            return out
+        # (the real function, with the C target standing in for its
+        # default OpenCL one)
+        real = pt.generate_loopy
+        pt.generate_loopy = lambda d, **kw: real(d, target=c_target(), **kw)
+        try:
+            from pytato.distributed.execute import generate_code_for_partition
+            for r in po.ranks:
+                try:
+                    prgs = generate_code_for_partition(r.partition)
+                    texts = [f"part {pid!r}\n" + describe_kernel(bp.program)
+                             + "\nbound " + ",".join(bp.bound_arguments)
+                             for pid, bp in sorted(prgs.items(),
+                                                   key=lambda kv: repr(kv[0]))]
+                except Exception as e:  # noqa: BLE001
+                    texts = [norm_exc(e)]
+                out[f"part_code_rank{r.rank}"] = "\n".join(texts)
+        finally:
+            pt.generate_loopy = real
     return out
 
 
